@@ -93,7 +93,9 @@ def repeated_groups(spec):
             if t and t["k"] == "complex" and t.get("content"):
                 walk(t["content"])
             return
-        if p.get("max", 1) != 1 or p["k"] in ("all", "choice"):
+        # (a choice that does not repeat keeps the order of the branch a sample uses; xs:all allows any order and repeated groups
+        # are regrouped)
+        if p.get("max", 1) != 1 or p["k"] == "all":
             found[0] = True
         for it in p["items"]:
             walk(it)
@@ -106,7 +108,7 @@ def repeated_groups(spec):
 
 
 JKEYS = ["id", "name", "items", "price", "active", "tags", "meta", "owner", "count", "notes", "address", "lines"]
-SCALARS = {"int": [0, 1, -5, 12345678901], "float": [1.5, -0.25, 1e-07], "bool": [True, False], "str": ["", "abc", "x y", "é", "007", "+2", "1.", "1e3", "TRUE"],
+SCALARS = {"int": [0, 1, -5, 12345678901], "float": [1.5, -0.25, 1e-07, 1.0, 0.0], "bool": [True, False], "str": ["", "abc", "x y", "é", "007", "+2", "1.", "1e3", "TRUE"],
            "date": ["2001-10-26"], "datetime": ["2001-10-26T21:32:52"]}
 
 
